@@ -34,6 +34,9 @@ func runC08(c *Ctx) {
 	checkN1(c, "X5")
 	ruleX6(c, "X6")
 	ruleBindCopies(c, "X7")
+	r.Rule("X8", "every merge-preferences value built in the module carries DontFollowAlias", 2)
+	ruleM5(c, "X8")
+	ruleM12(c, "X9")
 	r.Assume("expression strings parsed at run time from constants (array_to_map, PrettyPrintExp) are not visible to the IR")
 	r.Assume("third-party functions do not store into CandidateNode fields (they do not know the type); reflection-based copier.Copy is only applied to preference structs")
 }
